@@ -26,6 +26,9 @@ RUNS = [
     # cannot be spawned): it is not a completed run, so everything recorded must stay as it was
     # (only for max_retained_runs >= 2, see DESIGN observation O1)
     {"name": "abort-unspawnable-command", "args": ["-c", "broken", "-t", "a"], "pairs": [], "aborts": True},
+    # not a run at all: other subcommands that work on the same output directory; what the last
+    # completed run recorded must be addressed exactly as before
+    {"name": "checkpoint-delete-then-update", "noop": [["checkpoint", "delete"], ["checkpoint", "update"]], "pairs": []},
 ]
 SCRIPTS = {
     ("build", "a"): (["out " + "build of a line 1\n".encode().hex(), "out " + "build of a line 2\n".encode().hex(), "exit 0"],
@@ -65,6 +68,13 @@ def canon_result(doc):
         return None
     d = json.loads(json.dumps(doc))
     d.pop("timestamp", None)
+    # states are copied between scratch directories: the directory name is not part of the comparison
+    try:
+        d["out"]["run"]["path"] = re.sub(r"/mrv-[^/]+/", "/mrv-X/", d["out"]["run"]["path"])
+    except (KeyError, TypeError):
+        pass
+    if isinstance(d.get("invocation"), str):
+        d["invocation"] = re.sub(r"/mrv-[^/]+/", "/mrv-X/", d["invocation"])
     for cr in d.get("results", []):
         for g in cr.get("target_groups", []):
             for t in g.values():
@@ -151,7 +161,7 @@ def expected_logs(run, ran=None):
 def observe(r, maxr, history, printed, ran_by_step, wiped_by_abort=False):
     """history: list of run indices so far (oldest first); printed: the document the last run printed."""
     v = []
-    completed_steps = [i for i, h in enumerate(history) if not RUNS[h].get("aborts")]
+    completed_steps = [i for i, h in enumerate(history) if not RUNS[h].get("aborts") and not RUNS[h].get("noop")]
     last = RUNS[history[completed_steps[-1]]]
     res = r.mr("result", "show")
     if canon_result(res.json()) != canon_result(printed):
@@ -168,6 +178,8 @@ def observe(r, maxr, history, printed, ran_by_step, wiped_by_abort=False):
     pointer = 0
     occupant = {}       # slot -> step of the completed run whose records it holds (None: wiped)
     for step, h in enumerate(history):
+        if RUNS[h].get("noop"):
+            continue
         nxt = (0 if pointer >= maxr else pointer) + 1
         if RUNS[h].get("aborts"):
             occupant[nxt] = None
@@ -211,6 +223,29 @@ def transition(task):
         run = RUNS[ri]
         if run.get("aborts") and maxr < 2:
             return {"key": parent_key, "violations": [], "obs": None, "ran": {int(k): sorted(v) for k, v in ran_hist.items() if isinstance(k, int)}, "same": True}
+        if run.get("noop"):
+            viol = []
+            for argv in run["noop"]:
+                o = r.mr(*argv)
+                if o.code != 0:
+                    viol.append(("other-subcommand-failed", "%s: exit %s %s" % (" ".join(argv), o.code, o.err[:200])))
+            last_doc = ran_hist.get("doc")
+            completed = [h for h in history if not RUNS[h].get("aborts") and not RUNS[h].get("noop")]
+            if last_doc is not None and completed:
+                v2 = observe(r, maxr, history + [ri], last_doc, {k: v for k, v in ran_hist.items() if isinstance(k, int)})
+                viol += [(sig + ":after-" + run["name"], d) for sig, d in v2]
+            st = disk_state(r)
+            key = hashlib.sha256(json.dumps(st, sort_keys=True).encode()).hexdigest()[:24]
+            dst = os.path.join(store, key)
+            if not os.path.exists(dst):
+                tmp = dst + ".tmp%d" % os.getpid()
+                shutil.copytree(r.out_dir(), tmp)
+                try:
+                    os.rename(tmp, dst)
+                except OSError:
+                    shutil.rmtree(tmp, ignore_errors=True)
+            return {"key": key, "violations": _wrap(viol, maxr, history + [ri], out_dir), "obs": None,
+                    "ran": {k: (sorted(v) if isinstance(k, int) else v) for k, v in ran_hist.items()}}
         res = r.mr("run", *run["args"], env=r.trace_env())
         doc = res.json()
         viol = []
@@ -218,7 +253,7 @@ def transition(task):
             if res.code in (0, 1) and doc is not None:
                 viol.append(("abort-did-not-abort", "the unspawnable command did not make the run fail fatally: exit %s" % res.code))
             last_doc = ran_hist.get("doc")
-            completed = [h for h in history if not RUNS[h].get("aborts")]
+            completed = [h for h in history if not RUNS[h].get("aborts") and not RUNS[h].get("noop")]
             if last_doc is not None and completed:
                 v2 = observe(r, maxr, history + [ri], last_doc, {k: v for k, v in ran_hist.items() if isinstance(k, int)}, wiped_by_abort=True)
                 viol += [(sig + ":after-aborted-run", d) for sig, d in v2]
